@@ -16,6 +16,8 @@
 (*   ViewsTruthful   the target's +VIEWS names its MIME type and size div 1024              *)
 (*   SidecarExact    one block per sidecar present, lines = file lines right-stripped, each *)
 (*                   prefixed by one space; no block for an absent sidecar                  *)
+(*   SidecarExact_CappedPrefix  the same clause failing in exactly the recorded way Cap20K:  *)
+(*                   the block is the first CapCount whole lines of an over-long side-car   *)
 (*   InfoIsMenuLine  +INFO = the plain Gopher menu line (`$`: whole listing, in order)      *)
 (*   LenOrMarker     `+`: exact length or the unknown-length marker                          *)
 (* Design level (DRIFT): first line +-2, block order, lines exactly as the coded pipeline.   *)
@@ -35,6 +37,7 @@ TInit == tid \in 1..NTraces /\ l = 1 /\ verdict = "ok" /\ menu = <<>> /\ havemen
 SizeOfCase == IF KnownSize(Case.kind) THEN Case.size ELSE -1                 \* as coded
 SizeRef == IF KnownSize(Case.kind) THEN Case.size ELSE doclen                \* reference for a stated +VIEWS size
 DocRef == IF KnownSize(Case.kind) THEN Case.size ELSE IF Case.kind \in DocKinds THEN doclen ELSE -1
+CaseCapped == \E i \in 1..Len(EaExts) : Case.sc[i].p /\ Capped(Case.kind, Case.sc[i].lines)
 ItemsFor(e, sel) == SelectSeq(e.items, LAMBDA it : SelectorOf(it.info) = sel)
 MenuFor(sel) == SelectSeq(menu, LAMBDA m : SelectorOf(m) = sel)
 
@@ -46,7 +49,10 @@ JudgeInfo(e) ==
     ELSE LET it == IF e.form = "bang" THEN e.items[1] ELSE ItemsFor(e, Target)[1] IN
          IF ~(\A i \in 1..Len(e.items) : HasAdmin(e.items[i])) THEN "HasAdmin"
          ELSE IF ~ViewsTruthful(it, MimesOf(Case.kind, Case.ext), SizeRef, KnownSize(Case.kind)) THEN "ViewsTruthful"
-         ELSE IF ~SidecarExact(it, Case.sc, HasLinkAbs(Case.link)) THEN "SidecarExact"
+         ELSE IF ~SidecarExact(it, Case.sc, HasLinkAbs(Case.link))
+         THEN (IF CaseCapped /\ SidecarAsCoded(it, Case.kind, Case.sc, Case.form, Case.link)
+               THEN "SidecarExact_CappedPrefix"      \* exactly the recorded deviation Cap20K: the first CapCount WHOLE lines
+               ELSE "SidecarExact")                  \* anything else, also on an over-long side-car
          ELSE IF ~(IF e.form = "bang"
                    THEN Len(MenuFor(Target)) = 1 /\ it.info = MenuFor(Target)[1]
                    ELSE [i \in 1..Len(e.items) |-> e.items[i].info] = menu)
